@@ -150,6 +150,11 @@ def run(ctx):
 
     if ctx.replay:
         rp = json.load(open(ctx.replay))
+        if rp.get("trace_module") == "Trace_TestRun":       # a program of the -b / -r order leg
+            from props import testrun_common as TR
+            xe = ctx.build_harness("testrun", "asan", out="testrun_order")
+            cap, maxset = TR.probe_constants(ctx, xe)
+            return TR.replay(ctx, xe, cap, maxset, True, strict=True)
         ex = [l.split("\t") for l in rp["script"]]
         if rp.get("log") and rp["log"][0].get("op") == "probe":
             state["probe_log"] = rp["log"][0]
@@ -221,6 +226,9 @@ def run(ctx):
             execs = [[probe_line, vec_line(v)]]
             for _ in conform_all(ctx, "lone_xt%d" % k, execs, harness, "Trace_CmdLine", tcfg, pcfg, key_of, meta={"source": "lone -xt"}):
                 pass
+    # the documented meaning of -b together with -r: every repetition runs backwards (execution order observed through TestRun.tla)
+    from props import testrun_common as TR
+    ctx.notes["order_programs"] = TR.order_leg(ctx, nontrivial)
     return ctx.finish(
         rule="executions = chunks of <= 400 argument vectors, each parsed by the real CommandLineArguments (getters logged) and run through the real "
              "CommandLineTestRunner on a 10-test probe registry (ASan+UBSan build, tokens in exact-size heap blocks); vectors = every vector of <= 2 "
